@@ -261,8 +261,8 @@ pub fn run(args: &Args, report: &mut Report) {
         }
         return;
     }
-    let n_sys = report.size(168, 4200);
-    let n_rand = report.size(120, 3000);
+    let n_sys = report.size(168, 12_600);
+    let n_rand = report.size(120, 9000);
     for i in 0..(n_sys + n_rand) {
         let p = gen_pcase(seed, i, i < n_sys);
         if crate::c11::too_many_hangs(report) {
